@@ -23,7 +23,7 @@ from workload import scenario, scripted, tasks
 from . import minimize
 from .mod_c04 import IDENTITY_TASK
 
-N = {"quick": 1800, "thorough": 20000}
+N = {"quick": 7000, "thorough": 60000}
 MODES = ["serial", "thread", "process"]
 ALGOS = ["PartyAlpha", "PartyBeta", "PartyGamma"]
 TASKS = ["SimTaskA", "SimTaskB", "SimTaskC"]
